@@ -191,7 +191,9 @@ pub fn gen_c05(rng: &mut Rng, _i: u64, _tier: Tier) -> Script {
         1 | 2 => rng.range(600, 6000),
         _ => rng.range(0, 500),
     };
+    crate::props_dec::ALLOW_ALT258.with(|c| c.set(true));
     let vs = valid_stream(rng, zlib, target, 32768, None);
+    crate::props_dec::ALLOW_ALT258.with(|c| c.set(false));
     let mut pool = vs.bytes.clone();
     let valid_len = pool.len();
     let mut tmp = crate::script::Stats::default();
